@@ -21,8 +21,12 @@ reaching its end time or at a logical step cap raised from a coupling observer -
   c20.diff_state          diffusion: current time (value), profile, recorded profiles and recorded times bit-identical;
                           with recording off the recorded arrays of the loaded model are None (or a saved None)
 
-Surrogates (case kind 'surrogate'; BinarySurrogate on Al-Zr, MulticomponentSurrogate on Ni-Al-Cr, one case with two
-precipitate phases on Al-Mg-Si):
+Surrogates (case kind 'surrogate'; BinarySurrogate on Al-Zr, MulticomponentSurrogate on Ni-Al-Cr, MulticomponentSurrogate with
+two precipitate phases on Al-Mg-Si, GeneralSurrogate on Fe-Cr-Ni whose two phases FCC_A1 / BCC_A2 both carry mobility data).
+Every getter that takes a phase / precPhase argument is exercised with the argument left out AND with every admissible explicit
+value (Al-Mg-Si: both precipitate phases; Fe-Cr-Ni: both phases; one-phase families: the first value by name); the Al-Mg-Si
+and Fe-Cr-Ni cases train only the first, only the second, or both values, and the mech key 'phase' (default / explicit_first /
+explicit_other) says which form failed:
   c20.untrained_passthrough  a getter whose quantity has not been trained (nothing trained; or only the driving force / only
                           another phase trained) returns bit for bit what the thermodynamics object returns for the SAME
                           quantity.  Surrogate and reference use two freshly built backends that receive the identical call
@@ -84,7 +88,8 @@ LEVEL = 'exploration'
 RULE = ('precipitation configurations from the shared generator {binary Al-Zr, ternary Ni-Al-Cr, 2-3 phase Al-Mg-Si} x PSD recording on/off x '
         '{Euler, RK4} x 1-3 solve calls (each ended by its end time or a step cap, <=150 steps in total) x file name with/without .npz; '
         'diffusion configurations {single phase, homogenization x 5 rules} x {Ni-Cr, Ni-Cr-Al, Fe-Cr-Ni} x recording on/off x 1-3 calls, 8-24 nodes; '
-        'surrogate cases {binary, multicomponent} x {linear, log} x {broadcast grid, paired points} x kernel x grid sizes (<=40 points). '
+        'surrogate cases {binary Al-Zr, multicomponent Ni-Al-Cr, two-precipitate Al-Mg-Si, two-phase Fe-Cr-Ni} x {linear, log} x {broadcast grid, '
+        'paired points} x kernel x grid sizes (<=40 points) x trained phases {first, second, both} x phase argument {left out, every explicit value}. '
         'Non-trivial sub-cases (each with its own key): a save point at which some phase has precipitates (density > 0 and a non-zero '
         'distribution) / at which the profile differs from the initial one and >= 3 steps were taken; a surrogate quantity with >= 4 stored '
         'training points whose outputs are not constant, or an untrained getter group that returned finite values')
